@@ -761,6 +761,26 @@ pub fn quantizer_wild_distribution() {
     cover!(i > j, "decreasing step");
 }
 
+/// C03 / C20 (bounded: ranges 2, 3, 7, 1000, 65536; a symbolic range did not finish in 25 min): uniform models at PRECISION == usize::BITS == 64, where 2^P wraps in
+/// every integer type involved: bins are non-empty, consecutive, start at 0 and end at 2^64 (wrapped to 0).
+#[cfg_attr(kani, kani::proof)]
+#[cfg_attr(kani, kani::unwind(4))]
+pub fn uniform_u64_p64_new() {
+    const R: [usize; 5] = [2, 3, 7, 1000, 65536];
+    let ri: u8 = any(); assume(ri < 5);
+    let range: usize = R[ri as usize];
+    let m = UniformModel::<u64, 64>::new(range);
+    let s: usize = any(); assume(s < range);
+    let (c, p) = match m.left_cumulative_and_probability(s) { Some(x) => x, None => { assert!(false, "C03: uniform model reports an in-support symbol as impossible"); return; } };
+    assert!(p.get() != 0, "C20/C03: a zero value inside a non-zero probability type (uniform model at full 64-bit precision)");
+    if s == 0 { assert!(c == 0, "C03: first bin must start at 0"); }
+    if s + 1 == range { assert!(c.wrapping_add(p.get()) == 0, "C03: last bin must end at 2^64"); }
+    else { assert!(m.left_cumulative_and_probability(s + 1).map(|x| x.0) == Some(c + p.get()), "C03: uniform bins not consecutive"); }
+    assert!(m.left_cumulative_and_probability(range).is_none(), "C09/C03: uniform model accepted a symbol outside its support");
+}
+
+// (a lazy-vs-eager harness over tables [a, 1, 0] with one symbolic f32 weight did not finish in 25 min: not kept)
+
 /// C19: float table constructors refuse NaN and negative entries whatever normalisation the caller
 /// supplies (3 symbolic f32 entries, symbolic Option<normalization>).
 #[cfg_attr(kani, kani::proof)]
